@@ -11,6 +11,13 @@ Proj(h, l, ws, rs) ==
 EmitEdge ==
   PrintT("VEC" \o ToJson([from |-> Proj(hist, lock, w, rd), op |-> op', to |-> Proj(hist', lock', w', rd')]))
 
+\* FoxConc refines the reduced protocol FoxProto (whose invariant is proved inductive for any number of writers and
+\* versions, FoxProto_proofs): blocked maps to waiting, unlocked / done to idle; a hand-over of the mutex is one step
+PMap(p) == CASE p = "blocked" -> "waiting" [] p \in {"unlocked", "done"} -> "idle" [] OTHER -> p
+Proto == INSTANCE FoxProto WITH Writers <- Writers, None <- 0, pc <- [i \in Writers |-> PMap(w[i].pc)],
+                                 lock <- lock, ver <- Len(hist), base <- [i \in Writers |-> w[i].base]
+RefinesProto == Proto!Spec
+
 \* plain next-state relation without fairness for the safety configurations
 SafetySpec == Init /\ [][Next]_vars
 =============================================================================
